@@ -237,7 +237,7 @@ impl<T: Iterator<Item = u8>> Tokenizer<T> {
             buf,
             |ch| matches!(ch, b'a'..=b'z' | b'A'..=b'Z' | b'0'..=b'9' | b'_'),
         );
-        if let Some(kw) = Kw::from_latin1(buf).filter(|kw| kw.introduced_in() <= self.standard) {
+        if let Some(kw) = Kw::from_latin1(buf).filter(|kw| kw.is_reserved_in(self.standard)) {
             (Keyword(kw), None)
         } else {
             (Identifier, None)
@@ -1355,6 +1355,31 @@ comment
         assert_eq!(
             tokenize_first_kind_with_standard(VHDL2019, "view"),
             Keyword(Kw::View)
+        );
+    }
+
+    #[test]
+    fn assume_guarantee_is_keyword_only_in_vhdl2008() {
+        use crate::standard::VHDLStandard::*;
+        assert_eq!(
+            tokenize_first_kind_with_standard(VHDL2002, "assume_guarantee"),
+            Identifier
+        );
+        assert_eq!(
+            tokenize_first_kind_with_standard(VHDL2008, "assume_guarantee"),
+            Keyword(Kw::AssumeGuarantee)
+        );
+        assert_eq!(
+            tokenize_first_kind_with_standard(VHDL2008, "restrict_guarantee"),
+            Keyword(Kw::RestrictGuarantee)
+        );
+        assert_eq!(
+            tokenize_first_kind_with_standard(VHDL2019, "assume_guarantee"),
+            Identifier
+        );
+        assert_eq!(
+            tokenize_first_kind_with_standard(VHDL2019, "restrict_guarantee"),
+            Identifier
         );
     }
 }
